@@ -848,4 +848,6 @@ def run(run: Run):
     run.floor('C15.R7', 20)
     from .common import shared_mechanisms as _shared
     _shared(run, 'C15', 9, ['stored-values', 'references-minted', 'fresh-parse'])
+    from .common import shared_mechanisms as _shared_f
+    _shared_f(run, 'C15', 12, ['formulas'])
     return INFO
